@@ -275,45 +275,47 @@ Definition src2_unravel (b64decode : pyval -> pyval) (zlib_decompress : pyval ->
    | BErr => PErr
    end).
 
-(* saml2/entity.py:Entity.artifact2destination, lines 1585-1610 *)
-Definition src2_artifact2destination (b64decode : pyval -> pyval) (int_base : pyval -> pyval -> pyval) (v_self : pyval) (v_artifact : pyval) (v_descriptor : pyval) : pyval :=
+(* saml2/entity.py:Entity.artifact2destination, lines 1585-1612 *)
+Definition src2_artifact2destination (b64decode : pyval -> pyval) (int_base : pyval -> pyval -> pyval) (int_dec : pyval -> pyval) (str_isascii : pyval -> pyval) (str_isdigit : pyval -> pyval) (v_self : pyval) (v_artifact : pyval) (v_descriptor : pyval) : pyval :=
   let v__art := PErr in
   let v_typecode := PErr in
   let v_endpoint_index := PErr in
   let v_entity := PErr in
   let v_destination := PErr in
+  let v__index := PErr in
   (py_bind (py_bind v_artifact (fun a_1 => (b64decode a_1))) (fun v__art =>
    (py_bind (p2_slice v__art PNone (PInt (2)%Z)) (fun v_typecode =>
    (match p2_branch (p2_ne v_typecode (PStr (sb [0;4]%N))) with
    | BTrue => (PExc "ValueError")
-   | BFalse => (py_bind (p2_str (py_bind (p2_slice v__art (PInt (2)%Z) (PInt (4)%Z)) (fun a_2 => (int_base a_2 (PInt (16)%Z))))) (fun v_endpoint_index =>
+   | BFalse => (py_bind (py_bind (p2_slice v__art (PInt (2)%Z) (PInt (4)%Z)) (fun a_2 => (int_base a_2 (PInt (16)%Z)))) (fun v_endpoint_index =>
    (py_bind (p2_getitem (p2_attr v_self "sourceid") (p2_slice v__art (PInt (4)%Z) (PInt (24)%Z))) (fun v_entity =>
    (let v_destination := PNone in
    (py_bind (p2_iter_check (p2_getitem v_entity (p2_fconcat [p2_str v_descriptor; PStr "_descriptor"]))) (fun it_4 =>
-   (match pyfor2 (py_iter2 it_4) [v_destination] (fun st_5 x_6 => match st_5 with [v_destination] =>
+   (match pyfor2 (py_iter2 it_4) [v__index; v_destination] (fun st_5 x_6 => match st_5 with [v__index; v_destination] =>
     (let v_desc := x_6 in
-    (py_bindS (fun n_16 => (ExcS n_16 [v_destination])) (p2_iter_check (p2_getitem v_desc (PStr "artifact_resolution_service"))) (fun it_9 =>
-    (match pyfor2 (py_iter2 it_9) [v_destination] (fun st_10 x_11 => match st_10 with [v_destination] =>
+    (py_bindS (fun n_18 => (ExcS n_18 [v__index; v_destination])) (p2_iter_check (p2_getitem v_desc (PStr "artifact_resolution_service"))) (fun it_9 =>
+    (match pyfor2 (py_iter2 it_9) [v__index; v_destination] (fun st_10 x_11 => match st_10 with [v__index; v_destination] =>
      (let v_srv := x_11 in
-     (match p2_branch (p2_eq (p2_getitem v_srv (PStr "index")) v_endpoint_index) with
-     | BTrue => (py_bindS (fun n_14 => (ExcS n_14 [v_destination])) (p2_getitem v_srv (PStr "location")) (fun v_destination =>
-     (BrkS [v_destination])))
-     | BFalse => (NextS [v_destination])
-     | BExc n_15 => (ExcS n_15 [v_destination])
+     (py_bindS (fun n_17 => (ExcS n_17 [v__index; v_destination])) (p2_getitem v_srv (PStr "index")) (fun v__index =>
+     (match p2_branch (p2_and (str_isascii v__index) (p2_and (str_isdigit v__index) (p2_eq (py_bind v__index (fun a_14 => (int_dec a_14))) v_endpoint_index))) with
+     | BTrue => (py_bindS (fun n_15 => (ExcS n_15 [v__index; v_destination])) (p2_getitem v_srv (PStr "location")) (fun v_destination =>
+     (BrkS [v__index; v_destination])))
+     | BFalse => (NextS [v__index; v_destination])
+     | BExc n_16 => (ExcS n_16 [v__index; v_destination])
      | BErr => (RetS PErr)
-     end))
+     end))))
     | _ => RetS PErr end) with
-    | NextS st_10 => match st_10 with [v_destination] => (NextS [v_destination]) | _ => (RetS PErr) end
-    | BrkS st_10 => match st_10 with [v_destination] => (NextS [v_destination]) | _ => (RetS PErr) end
+    | NextS st_10 => match st_10 with [v__index; v_destination] => (NextS [v__index; v_destination]) | _ => (RetS PErr) end
+    | BrkS st_10 => match st_10 with [v__index; v_destination] => (NextS [v__index; v_destination]) | _ => (RetS PErr) end
     | RetS r_12 => (RetS r_12)
-    | ExcS n_13 st_10 => match st_10 with [v_destination] => (ExcS n_13 [v_destination]) | _ => (RetS PErr) end
+    | ExcS n_13 st_10 => match st_10 with [v__index; v_destination] => (ExcS n_13 [v__index; v_destination]) | _ => (RetS PErr) end
     end))))
    | _ => RetS PErr end) with
-   | NextS st_5 => match st_5 with [v_destination] => v_destination | _ => PErr end
+   | NextS st_5 => match st_5 with [v__index; v_destination] => v_destination | _ => PErr end
    | BrkS _ => PErr
    | RetS r_7 => r_7
-   | ExcS n_8 st_5 => match st_5 with [v_destination] => (PExc n_8) | _ => PErr end
+   | ExcS n_8 st_5 => match st_5 with [v__index; v_destination] => (PExc n_8) | _ => PErr end
    end))))))))
-   | BExc n_18 => (PExc n_18)
+   | BExc n_20 => (PExc n_20)
    | BErr => PErr
    end))))).
